@@ -1,12 +1,285 @@
-// Self-tests of the machinery itself (stub fidelity etc.).
+// Self-tests of the machinery itself.
+//   selftest simfs <seed> <sequences>: SimFS against the kernel. Random operation
+//   sequences are executed on SimFS and, by a forked child that has dropped to
+//   uid/gid 65534, on a real scratch directory; per-operation result/errno and
+//   the final trees must agree.
 #include "framework.h"
+#include <algorithm>
+#include <cerrno>
+#include <grp.h>
+#include <dirent.h>
+#include <fcntl.h>
+#include <sstream>
+#include <sys/stat.h>
+#include <sys/wait.h>
+#include <unistd.h>
+#include <utime.h>
 
-int simfs_kernel_diff(int argc, char **argv);
+struct FsOp { std::string op, path, arg; int mode = 0; int64_t t = 0; };
+
+static std::string gen_path(Rng &rng) {
+	static const char *comps[] = {"a", "b", "c", "l", "m", "d1", "d2", "f", "..", ".", "a", "b", "d1"};
+	int n = 1 + (int) rng.below(3);
+	std::string p;
+	int dots = 0;
+	for (int i = 0; i < n; ++i) {
+		std::string c = comps[rng.below(13)];
+		if (c == "..") { if (++dots > 1) c = "a"; }
+		if (i) p += rng.chance(1, 12) ? "//" : "/";
+		p += c;
+	}
+	if (rng.chance(1, 8)) p += "/";
+	return p;
+}
+
+static std::vector<FsOp> gen_ops(Rng &rng, bool as_root) {
+	std::vector<FsOp> ops;
+	// a small starting tree so that most later operations meet existing objects
+	{
+		static const char *pre[][3] = {{"mkdir", "a", ""}, {"mkdir", "d1", ""}, {"mkdir", "a/b", ""}, {"creat_excl", "f", "file"},
+		                               {"creat_excl", "a/c", "inner"}, {"symlink", "l", "a"}, {"symlink", "m", "f"}, {"mkdir", "d1/d2", ""}};
+		for (auto &q : pre) {
+			if (rng.chance(1, 4)) continue;
+			FsOp o; o.op = q[0]; o.path = q[1]; o.arg = q[2]; o.mode = 0755;
+			ops.push_back(o);
+		}
+	}
+	int n = 8 + (int) rng.below(25);
+	static const int modes[] = {0755, 0700, 0555, 0500, 0000, 0644, 0600, 0444, 0311, 0777, 01777, 02755, 04755, 0111};
+	for (int i = 0; i < n; ++i) {
+		FsOp o;
+		o.path = gen_path(rng);
+		o.mode = modes[rng.below(14)];
+		switch (rng.below(14)) {
+			case 0: case 1: o.op = "mkdir"; break;
+			case 2: case 3: o.op = "creat_excl"; o.arg = "data" + std::to_string(i); break;
+			case 4: o.op = "creat"; o.arg = "xy" + std::to_string(i); break;
+			case 5: o.op = "unlink"; break;
+			case 6: o.op = "remove"; break;
+			case 7: case 8: {
+				o.op = "symlink";
+				static const char *tg[] = {"a", "b", "../b", "/nonexistent", "a/b", ".", "l", "m", "d1/", "", "c/../a"};
+				o.arg = tg[rng.below(11)];
+				if (as_root && !o.arg.empty() && o.arg[0] == '/') o.arg = "a/../f";   // never point outside the scratch tree as root
+				break;
+			}
+			case 9: o.op = "chmod"; break;
+			case 10: o.op = rng.chance(1, 2) ? "stat" : "lstat"; break;
+			case 11: o.op = "utime"; o.t = 100000 + (int64_t) rng.below(1000000000); break;
+			case 12: o.op = "chown"; o.mode = rng.chance(1, 2) ? 65534 : 0; break;
+			default: o.op = "open_read"; break;
+		}
+		ops.push_back(o);
+	}
+	return ops;
+}
+
+static std::string dump_real(const std::string &path, const std::string &label) {
+	std::ostringstream o;
+	struct stat st;
+	if (::lstat(path.c_str(), &st) != 0) return "";
+	char type = S_ISDIR(st.st_mode) ? 'd' : S_ISLNK(st.st_mode) ? 'l' : 'f';
+	o << label << " " << type << " " << std::oct << (st.st_mode & 07777) << std::dec << " " << st.st_uid << ":" << st.st_gid;
+	if (type == 'f') {
+		Bytes data;
+		// may be unreadable for the test user; the parent (root) reads it
+		int fd = ::open(path.c_str(), O_RDONLY);
+		if (fd >= 0) {
+			uint8_t buf[4096];
+			ssize_t k;
+			while ((k = ::read(fd, buf, sizeof buf)) > 0) data.insert(data.end(), buf, buf + k);
+			::close(fd);
+		}
+		o << " " << data.size() << ":" << std::hex << crc16_bitwise(data) << std::dec;
+	}
+	if (type == 'l') {
+		char buf[4096];
+		ssize_t k = ::readlink(path.c_str(), buf, sizeof buf);
+		o << " -> " << hex_encode(std::string(buf, k > 0 ? (size_t) k : 0));
+	}
+	o << "\n";
+	if (type == 'd') {
+		std::vector<std::string> names;
+		DIR *d = opendir(path.c_str());
+		if (d) {
+			while (struct dirent *e = readdir(d)) {
+				std::string n = e->d_name;
+				if (n != "." && n != "..") names.push_back(n);
+			}
+			closedir(d);
+		}
+		std::sort(names.begin(), names.end());
+		for (auto &n : names) o << dump_real(path + "/" + n, label + "/" + hex_encode(n));
+	}
+	return o.str();
+}
+
+static void rm_rf(const std::string &path) {
+	struct stat st;
+	if (::lstat(path.c_str(), &st) != 0) return;
+	if (S_ISDIR(st.st_mode)) {
+		::chmod(path.c_str(), 0700);
+		DIR *d = opendir(path.c_str());
+		std::vector<std::string> names;
+		if (d) {
+			while (struct dirent *e = readdir(d)) {
+				std::string n = e->d_name;
+				if (n != "." && n != "..") names.push_back(n);
+			}
+			closedir(d);
+		}
+		for (auto &n : names) rm_rf(path + "/" + n);
+		::rmdir(path.c_str());
+	} else ::unlink(path.c_str());
+}
+
+static int real_op(const FsOp &o, int &err) {
+	errno = 0;
+	int r = 0;
+	if (o.op == "mkdir") r = ::mkdir(o.path.c_str(), (mode_t) o.mode);
+	else if (o.op == "creat_excl" || o.op == "creat") {
+		int flags = O_CREAT | O_WRONLY | (o.op == "creat_excl" ? O_EXCL : 0);
+		int fd = ::open(o.path.c_str(), flags, 0600);
+		r = fd < 0 ? -1 : 0;
+		if (fd >= 0) {
+			int e2 = errno;
+			if (::write(fd, o.arg.data(), o.arg.size()) < 0) {}
+			::close(fd);
+			errno = e2;
+		}
+	} else if (o.op == "unlink") r = ::unlink(o.path.c_str());
+	else if (o.op == "remove") r = ::remove(o.path.c_str());
+	else if (o.op == "symlink") r = ::symlink(o.arg.c_str(), o.path.c_str());
+	else if (o.op == "chmod") r = ::chmod(o.path.c_str(), (mode_t) o.mode);
+	else if (o.op == "chown") r = ::chown(o.path.c_str(), (uid_t) o.mode, (gid_t) o.mode);
+	else if (o.op == "stat") { struct stat st; r = ::stat(o.path.c_str(), &st); }
+	else if (o.op == "lstat") { struct stat st; r = ::lstat(o.path.c_str(), &st); }
+	else if (o.op == "utime") { struct utimbuf ut; ut.actime = ut.modtime = (time_t) o.t; r = ::utime(o.path.c_str(), &ut); }
+	else if (o.op == "open_read") { int fd = ::open(o.path.c_str(), O_RDONLY); r = fd < 0 ? -1 : 0; if (fd >= 0) ::close(fd); }
+	err = r != 0 ? errno : 0;
+	return r;
+}
+
+static int sim_op(SimFS &fs, const FsOp &o, int &err) {
+	err = 0;
+	int r = 0, ino;
+	if (o.op == "mkdir") r = fs.sys_mkdir(o.path, o.mode, err);
+	else if (o.op == "creat_excl" || o.op == "creat") {
+		r = fs.sys_open(o.path, O_CREAT | O_WRONLY | (o.op == "creat_excl" ? O_EXCL : 0), 0600, ino, err);
+		if (r == 0) { int e2; fs.sys_write(ino, 0, (const uint8_t *) o.arg.data(), o.arg.size(), e2); }
+	} else if (o.op == "unlink") r = fs.sys_unlink(o.path, err);
+	else if (o.op == "remove") r = fs.sys_remove(o.path, err);
+	else if (o.op == "symlink") r = fs.sys_symlink(o.arg, o.path, err);
+	else if (o.op == "chmod") r = fs.sys_chmod(o.path, o.mode, err);
+	else if (o.op == "chown") r = fs.sys_chown(o.path, o.mode, o.mode, err);
+	else if (o.op == "stat") { SimStat st; r = fs.sys_stat(o.path, st, err, true); }
+	else if (o.op == "lstat") { SimStat st; r = fs.sys_stat(o.path, st, err, false); }
+	else if (o.op == "utime") r = fs.sys_utime(o.path, o.t, err);
+	else if (o.op == "open_read") r = fs.sys_open(o.path, O_RDONLY, 0, ino, err);
+	if (r == 0) err = 0;
+	return r;
+}
+
+int simfs_kernel_diff(int argc, char **argv) {
+	uint64_t seed = argc > 3 ? strtoull(argv[3], nullptr, 0) : 1;
+	int nseq = argc > 4 ? atoi(argv[4]) : 500;
+	bool as_root = argc > 5 && std::string(argv[5]) == "root";
+	int tuid = as_root ? 0 : 65534;
+	if (geteuid() != 0) { fprintf(stderr, "simfs self-test needs root to drop to uid 65534\n"); return 2; }
+	std::string base = std::string(VERIF_DIR) + "/build/simfs-scratch-" + std::to_string(getpid());
+	int bad = 0;
+	uint64_t nops = 0, nerr = 0;
+	std::map<std::string, int> errhist;
+	int only = getenv("SIMFS_ONLY") ? atoi(getenv("SIMFS_ONLY")) : -1;
+	for (int s = 0; s < nseq; ++s) {
+		if (only >= 0 && s != only) continue;
+		Rng rng(seed, 999, (uint64_t) s);
+		std::vector<FsOp> ops = gen_ops(rng, as_root);
+		rm_rf(base);
+		::mkdir(base.c_str(), 0755);
+		std::string b = base + "/b";
+		::mkdir(b.c_str(), 0755);
+		::mkdir((b + "/w").c_str(), 0755);
+		::mkdir((b + "/w/cw").c_str(), 0755);
+		if (::chown(b.c_str(), tuid, tuid) || ::chown((b + "/w").c_str(), tuid, tuid) || ::chown((b + "/w/cw").c_str(), tuid, tuid)) {}
+		int pfd[2];
+		if (pipe(pfd) != 0) return 2;
+		pid_t pid = fork();
+		if (pid == 0) {
+			close(pfd[0]);
+			if (!as_root) {
+				if (setgroups(0, nullptr) != 0) {}
+				if (setgid(65534) != 0 || setuid(65534) != 0) _exit(3);
+			}
+			umask(022);
+			if (chdir((b + "/w/cw").c_str()) != 0) _exit(4);
+			std::string outp;
+			for (auto &o : ops) {
+				int err;
+				int r = real_op(o, err);
+				outp += strf("%d %d\n", r, err);
+			}
+			if (write(pfd[1], outp.data(), outp.size()) < 0) {}
+			_exit(0);
+		}
+		close(pfd[1]);
+		std::string childout;
+		char buf[4096];
+		ssize_t k;
+		while ((k = read(pfd[0], buf, sizeof buf)) > 0) childout.append(buf, (size_t) k);
+		close(pfd[0]);
+		int status;
+		waitpid(pid, &status, 0);
+		if (!WIFEXITED(status) || WEXITSTATUS(status) != 0) { fprintf(stderr, "child failed (%d)\n", status); return 2; }
+		// the same on SimFS
+		SimFS fs;
+		fs.euid = tuid; fs.egid = tuid; fs.umask_ = 022;
+		fs.add_dir("/b", 0755, tuid, tuid, 1);
+		fs.add_dir("/b/w", 0755, tuid, tuid, 1);
+		fs.add_dir("/b/w/cw", 0755, tuid, tuid, 1);
+		int e;
+		fs.sys_chdir("/b/w/cw", e);
+		auto lines = split_ch(childout, '\n');
+		bool seq_bad = false;
+		for (size_t i = 0; i < ops.size(); ++i) {
+			int err;
+			int r = sim_op(fs, ops[i], err);
+			int rr = 0, rerr = 0;
+			if (i < lines.size()) sscanf(lines[i].c_str(), "%d %d", &rr, &rerr);
+			++nops;
+			if (rerr) { ++nerr; errhist[strerror(rerr)]++; }
+			if (getenv("SIMFS_DEBUG")) fprintf(stderr, "  seq %d op %zu %s(%s,%s,%o): kernel %d/%d sim %d/%d\n", s, i, ops[i].op.c_str(), ops[i].path.c_str(), ops[i].arg.c_str(), ops[i].mode, rr, rerr, r, err);
+			if ((r != 0) != (rr != 0) || err != rerr) {
+				fprintf(stderr, "MISMATCH seq %d op %zu: %s(%s%s%s mode=%o): kernel %d errno=%d (%s), SimFS %d errno=%d (%s)\n", s, i,
+				        ops[i].op.c_str(), ops[i].path.c_str(), ops[i].arg.empty() ? "" : ", ", ops[i].arg.c_str(), ops[i].mode, rr, rerr,
+				        strerror(rerr), r, err, strerror(err));
+				seq_bad = true;
+				break;
+			}
+		}
+		if (!seq_bad) {
+			std::string real = dump_real(b, ""), sim = fs.dump(fs.lookup("/b"), false);
+			if (real != sim) {
+				fprintf(stderr, "TREE MISMATCH seq %d\n--- kernel\n%s--- SimFS\n%s", s, real.c_str(), sim.c_str());
+				seq_bad = true;
+			}
+		}
+		if (seq_bad) {
+			fprintf(stderr, "  sequence:");
+			for (auto &o : ops) fprintf(stderr, " %s(%s%s%s,%o)", o.op.c_str(), o.path.c_str(), o.arg.empty() ? "" : ",", o.arg.c_str(), o.mode);
+			fprintf(stderr, "\n");
+			if (++bad >= 5) break;
+		}
+	}
+	rm_rf(base);
+	printf("simfs-vs-kernel (as uid %d): %d sequences, %llu operations (%llu failing with an errno, both sides agreeing), %d mismatching sequences\n", tuid, nseq,
+	       (unsigned long long) nops, (unsigned long long) nerr, bad);
+	for (auto &e : errhist) printf("  errno %-28s %d\n", e.first.c_str(), e.second);
+	return bad ? 1 : 0;
+}
 
 int selftest_main(int argc, char **argv) {
 	if (argc >= 3 && std::string(argv[2]) == "simfs") return simfs_kernel_diff(argc, argv);
 	fprintf(stderr, "usage: selftest simfs <seed> <sequences>\n");
 	return 2;
 }
-
-__attribute__((weak)) int simfs_kernel_diff(int, char **) { fprintf(stderr, "not built\n"); return 2; }
